@@ -101,6 +101,9 @@ Proof.
   eexists; split; [reflexivity|]. split; reflexivity.
 Qed.
 
+Lemma low_byte_wrap z : low_byte z = wrap_status z.
+Proof. unfold low_byte, wrap_status. change 255%Z with (Z.ones 8). rewrite Z.land_ones by discriminate. reflexivity. Qed.
+
 Lemma exempt_bang (bang : bool) (stk : list pos) : exempt (if bang then PBang :: stk else stk) = exempt stk || bang.
 Proof. destruct bang; cbn; [rewrite orb_true_r|rewrite orb_false_r]; reflexivity. Qed.
 
@@ -167,6 +170,8 @@ Section Sim.
     - (* break *)
       destruct n as [|k]; [discriminate|]. cbn [scope_leaf] in Hs.
       destruct (Nat.ltb k (length ctx)) eqn:E; [|discriminate]. apply Nat.ltb_lt in E.
+      destruct (Nat.ltb k 127) eqn:E7; [|discriminate]. apply Nat.ltb_lt in E7.
+      replace (Nat.ltb 127 (S k)) with false by (symmetry; apply Nat.ltb_ge; lia).
       intros _. split; [|exact Hf].
       unfold expect_c, pending. cbn [is_normal snd andb]. rewrite andb_false_r. cbn [expect snd fst].
       destruct lv as [|lv']; [lia|]. unfold do_break. cbn [loop_level emb].
@@ -174,6 +179,8 @@ Section Sim.
       unfold errexit_check, ok, slast. cbn. rewrite andb_false_r. reflexivity.
     - (* continue *)
       destruct n as [|k]; [discriminate|]. cbn [scope_leaf] in Hs.
+      destruct (Nat.ltb k 127) eqn:E7; [|discriminate]. apply Nat.ltb_lt in E7. cbn [negb] in Hs.
+      replace (Nat.ltb 127 (S k)) with false by (symmetry; apply Nat.ltb_ge; lia).
       destruct (nth_error ctx k) as [[|]|] eqn:E; try discriminate.
       assert (Hk : k < length ctx) by (apply nth_error_Some; rewrite E; discriminate).
       intros _. split; [|exact Hf].
@@ -186,12 +193,12 @@ Section Sim.
       destruct (fdepth (sh w)) eqn:E.
       + apply (check_ok (Leaf (LReturn a)) stk ctx lv 2 w). reflexivity.
       + unfold expect_c, pending. cbn [is_normal snd andb]. rewrite andb_false_r. cbn [expect snd fst].
-        destruct a as [m|]; [do 3 eexists; reflexivity|].
+        destruct a as [m|]; [rewrite low_byte_wrap; do 3 eexists; reflexivity|].
         exists 0, 0, lv. rewrite emb_last_id. reflexivity.
     - (* exit *)
       intros _. split; [|exact Hf].
       unfold expect_c, pending. cbn [is_normal snd andb]. rewrite andb_false_r. cbn [expect snd fst].
-      destruct a as [n|]; eexists; (split; [reflexivity|]); split; reflexivity.
+      destruct a as [n|]; [rewrite low_byte_wrap|]; eexists; (split; [reflexivity|]); split; reflexivity.
     - intros _. split; [|exact Hf]. apply (check_ok (Leaf (LSet o b)) stk ctx lv 0 (upd_sh (set_opt o b) w)). reflexivity.
     - (* call *)
       cbn [b_sh emb]. destruct (lookup f (funs (sh w))) as [body|] eqn:E.
